@@ -218,6 +218,7 @@ mod verif_driver_assets {
         let all: Vec<AssetClass> = vec![
             AssetClass::Naked, AssetClass::Named(b"t".to_vec()), AssetClass::Named(vec![]), AssetClass::Named(b"lovelace".to_vec()), AssetClass::Named(b"ada".to_vec()),
             AssetClass::Defined(vec![7u8; 28], b"x".to_vec()), AssetClass::Defined(vec![], b"x".to_vec()), AssetClass::Defined(vec![7u8; 28], vec![]), AssetClass::Defined(vec![7u8; 28], b"lovelace".to_vec()),
+            AssetClass::Defined(vec![7u8; 30], vec![]), AssetClass::Defined(vec![7u8; 56], vec![]), AssetClass::Defined(vec![7u8; 29], b"x".to_vec()), AssetClass::Defined(vec![7u8; 1], vec![]),
         ];
         let amt = |a: &CanonicalAssets, c: &AssetClass| a.asset_amount(c).unwrap_or(0);
         let prev = std::panic::take_hook();
